@@ -14,7 +14,7 @@ PROOF_NOTE = ("Trusted: Coq 8.16.1 kernel incl. vm_compute (no native_compute); 
 RUN_NOTE = ("Trusted: Coq 8.16.1 kernel incl. vm_compute (no native_compute); no axioms (Print Assumptions of every "
             "property theorem: Closed under the global context). The theorems are about the Gallina reference semantics "
             "(coq/RefSem.v). The faithful net model (coq/NetModel.v) is PROVED to produce the reference semantics' trace on the "
-            "fragment services / task calls / Parallel / Condition / While (coq/Refine, Properties/Refinement.v: "
+            "fragment services / task calls / Parallel / Condition / While / counting loops in the production task (coq/Refine, Properties/Refinement.v: "
             "net_refines_ref_fragment; all programs, oracles, scripts; engines without immediate or re-entrant completions; "
             "test identifiers; every sufficiently large fuel; Properties/RefinementTransfer.v: on that fragment every successful run "
             "of the net model, with any fuel, IS the reference trace, and the monitors holds_C01 / C07 / C04ctx / C08 / C14 / C17 / "
